@@ -32,7 +32,14 @@ for sid in sorted(os.listdir(os.path.join(ROOT, "seeded"))):
         why = (r.get("why") or "; ".join(r.get("broken", [])))[:300]
     verdict = "not detected"
     if viol:
-        verdict = "detected, failing input replayed" if "no-failing-input-found" not in viol[0] else "detected (no-failing-input-found)"
+        # (a check may print two lines: the broken theorem without a failing input, and a failing input / schedule found by another stage)
+        withinput = [v for v in viol if "no-failing-input-found" not in v]
+        verdict = "detected, failing input replayed" if withinput else "detected (no-failing-input-found)"
+        if withinput and withinput[0] is not viol[0]:
+            m2 = re.search(r"replay=(\S+)", withinput[0])
+            if m2 and os.path.exists(m2.group(1)):
+                r2 = json.load(open(m2.group(1)))
+                why = (r2.get("why") or why)[:300]
     if "first_try" not in meta and meta.get("detected_by") and sid[-1] in "klm":   # round 5 was run unbiased (tag pre-round5)
         meta["first_try"] = meta["detected_by"].get("verdict", "")   # the verdict before any machinery was changed in response
     meta["detected_by"] = {"check": "./check %s --tier quick" % prop, "verdict": verdict, "exit_code": p.returncode, "first_failing_input": why}
